@@ -216,6 +216,7 @@ def h_binop(cls):
     def h(ctx):
         sp, I, me = evaluator(ctx, cls)
         arith_models(sp, I)
+        sp.field_sorts[('pyvalue', 'days')] = ('obj', 'pyvalue')
         left, right, op = ctx.fresh('node.left', ObjS), ctx.fresh('node.right', ObjS), ctx.fresh('node.op', ObjS)
         names = ['Add', 'Sub', 'Mult', 'Div', 'Mod']
         which = ctx.choose(5, 'op')
@@ -234,6 +235,11 @@ def h_binop(cls):
                 ctx.check('C04.%s.%s_by_zero_gives_0' % (cls, key), z3.And(PyIsZero(R), z3.BoolVal(r == 0)), 'property')
             else:
                 ctx.check('C04.%s.%s_otherwise_python_operator' % (cls, key), z3.And(z3.Not(PyIsZero(R)), z3.BoolVal(isinstance(r, Obj) and z3.eq(r.expr, PyBin[key](L, R)))), 'property')
+        elif key == 'sub' and cls == 'TransactionEvaluator':
+            # the difference of two dates is a number of days (reference: abs(r.date - txn.date) <= 3); anything else is Python's operator
+            both_dates = z3.And(UF('isinstance_date', ObjS, BoolS)(L), UF('isinstance_date', ObjS, BoolS)(R))
+            want = z3.If(both_dates, UF('pyvalue.days', ObjS, ObjS)(PyBin['sub'](L, R)), PyBin['sub'](L, R))
+            ctx.check('C04.%s.sub_is_days_between_dates_else_python_operator_on_left_then_right' % cls, z3.BoolVal(False) if not isinstance(r, Obj) else r.expr == want, 'property')
         else:
             ctx.check('C04.%s.%s_is_python_operator_on_left_then_right' % (cls, key), isinstance(r, Obj) and z3.eq(r.expr, PyBin[key](L, R)), 'property')
         ctx.cover('%s.binop.%s' % (cls, key))
